@@ -22,46 +22,42 @@ def E.atoms : E → List E
   | .lit n d => if d == 1 then [] else [.lit n d]
   | e => [e]
 
-/-! level 0: atoms compared literally -/
-def insertNew0 (l : List E) (x : E) : List E := if l.contains x then l else l ++ [x]
-def atomTable0 (es : List E) : List E := (es.flatMap E.atoms).foldl insertNew0 []
-def E.toGA0 (atoms : List E) : E → Expr
-  | .add a b => .add (a.toGA0 atoms) (b.toGA0 atoms)
-  | .sub a b => .sub (a.toGA0 atoms) (b.toGA0 atoms)
-  | .mul a b => .mul (a.toGA0 atoms) (b.toGA0 atoms)
-  | .neg a => .neg (a.toGA0 atoms)
-  | .lit n d => if d == 1 then .intCast n else .var (atoms.idxOf (.lit n d))
-  | e => .var (atoms.idxOf e)
-def polyEq0 (a b : E) : Bool :=
-  let atoms := atomTable0 [a, b]
-  (a.toGA0 atoms).toPoly == (b.toGA0 atoms).toPoly
+/-! Atoms are identified up to an equivalence `eqv` (assumed to imply equal values): -/
+def insertNewW (eqv : E → E → Bool) (l : List E) (x : E) : List E := if l.any (eqv · x) then l else l ++ [x]
+def atomTableW (eqv : E → E → Bool) (es : List E) : List E := (es.flatMap E.atoms).foldl (insertNewW eqv) []
+def atomIdxW (eqv : E → E → Bool) (atoms : List E) (x : E) : Nat := atoms.findIdx (eqv · x)
 
-/-- level 1: two atoms are identified when they are literally equal, or the same function applied
-    to arguments that are equal as polynomials (so `sqrt (x*x + y*y)` and `sqrt (y*y + x*x)` are one
-    atom, and a harmless re-association inside glm does not break a theorem) -/
-def atomEq (x y : E) : Bool :=
+def E.toGAW (eqv : E → E → Bool) (atoms : List E) : E → Expr
+  | .add a b => .add (a.toGAW eqv atoms) (b.toGAW eqv atoms)
+  | .sub a b => .sub (a.toGAW eqv atoms) (b.toGAW eqv atoms)
+  | .mul a b => .mul (a.toGAW eqv atoms) (b.toGAW eqv atoms)
+  | .neg a => .neg (a.toGAW eqv atoms)
+  | .lit n d => if d == 1 then .intCast n else .var (atomIdxW eqv atoms (.lit n d))
+  | e => .var (atomIdxW eqv atoms e)
+
+/-- same normal form as polynomials over the common atom table (atoms up to `eqv`) -/
+def polyEqW (eqv : E → E → Bool) (a b : E) : Bool :=
+  let atoms := atomTableW eqv [a, b]
+  (a.toGAW eqv atoms).toPoly == (b.toGAW eqv atoms).toPoly
+
+/-- two atoms are identified when they are literally equal, or the same function (or a quotient) applied
+    to arguments that are `peq`-equal -/
+def atomEqW (peq : E → E → Bool) (x y : E) : Bool :=
   x == y || match x, y with
-  | .call1 f a, .call1 g b => f == g && polyEq0 a b
-  | .call2 f a1 a2, .call2 g b1 b2 => f == g && polyEq0 a1 b1 && polyEq0 a2 b2
-  | .div a1 a2, .div b1 b2 => polyEq0 a1 b1 && polyEq0 a2 b2
+  | .call1 f a, .call1 g b => f == g && peq a b
+  | .call2 f a1 a2, .call2 g b1 b2 => f == g && peq a1 b1 && peq a2 b2
+  | .div a1 a2, .div b1 b2 => peq a1 b1 && peq a2 b2
   | _, _ => false
 
-def insertNew (l : List E) (x : E) : List E := if l.any (atomEq · x) then l else l ++ [x]
-def atomTable (es : List E) : List E := (es.flatMap E.atoms).foldl insertNew []
-def atomIdx (atoms : List E) (x : E) : Nat := atoms.findIdx (atomEq · x)
+/-- polynomial equality with atoms compared recursively to depth `n`: so `sqrt (x*x + y*y)` and
+    `sqrt (y*y + x*x)` are one atom, also inside another `sqrt` or quotient, and a harmless
+    re-association inside glm does not break a theorem -/
+def polyEqN : Nat → E → E → Bool
+  | 0 => fun a b => a == b
+  | n + 1 => polyEqW (atomEqW (polyEqN n))
 
-def E.toGA (atoms : List E) : E → Expr
-  | .add a b => .add (a.toGA atoms) (b.toGA atoms)
-  | .sub a b => .sub (a.toGA atoms) (b.toGA atoms)
-  | .mul a b => .mul (a.toGA atoms) (b.toGA atoms)
-  | .neg a => .neg (a.toGA atoms)
-  | .lit n d => if d == 1 then .intCast n else .var (atomIdx atoms (.lit n d))
-  | e => .var (atomIdx atoms e)
-
-/-- decidable check: same normal form as polynomials over the common atom table -/
-def polyEq (a b : E) : Bool :=
-  let atoms := atomTable [a, b]
-  (a.toGA atoms).toPoly == (b.toGA atoms).toPoly
+/-- decidable check used everywhere: atoms compared to nesting depth 3 -/
+def polyEq (a b : E) : Bool := polyEqN 4 a b
 
 /-- left-nested sum of a list of expressions -/
 def sumE : List E → E
